@@ -21,7 +21,7 @@ shape("SuppressionRule", name="str", condition="callback", max_severity="enum:Th
 shape("SuppressionResult", suppressed="bool", original_action="enum:ResponseAction", modified_action="enum:ResponseAction",
       suppression_reason="opt:str")
 shape("RegulatoryTCell", rules="list:obj:SuppressionRule", stability_threshold="int", records="dict:str,obj:ToleranceRecord")
-shape("ThreatSignature", agent_id="str", vocabulary_hash="str", structure_hash="str", violation_types="any", threat_level="enum:ThreatLevel",
+shape("ThreatSignature", agent_id="str", vocabulary_hash="str", structure_hash="str", violation_types="list:str", threat_level="enum:ThreatLevel",
       effective_response="enum:ResponseAction", created_at="datetime", last_accessed="datetime", recall_count="int")
 shape("ImmuneSystem", displays="dict:str,obj:MHCDisplay", tcells="dict:str,obj:TCell", thymus="any", treg="obj:RegulatoryTCell",
       memory="obj:ImmuneMemory", min_training_observations="int")
@@ -152,6 +152,10 @@ def native_replay(rep):
     import os, sys
     sys.path.insert(0, os.path.dirname(os.path.dirname(os.path.abspath(__file__))))
     from native import c17_bounded
+    if "ImmuneMemory" in str(rep.get("obligation", "")):
+        n, bad = c17_bounded.search_memory()
+        if bad is not None:
+            return {"confirmed": True, "observed": bad, "found_by": f"bounded memory enumeration ({n} cases)"}
     n, bad = c17_bounded.search(0, 40)
     if bad is None:
         return {"confirmed": False, "observed": f"no violation among {n} generated fingerprints/histories/windows"}
@@ -166,3 +170,23 @@ contract(D + "memory.py::ImmuneMemory.recall_by_hashes", "C17", self_type="Immun
          loops={"for sig in self.signatures": {"invariant": ["True"]}},
          ensures={"recalled-signature-matches-the-query": "implies(result is not None, result.agent_id == agent_id and result.vocabulary_hash == vocabulary_hash "
                                                           "and result.structure_hash == structure_hash)"})
+
+# the remembered-threat second signal's other entry points: what `recall` hands back really is a stored signature of the queried agent (with equal
+# hashes unless a partial match was asked for); pruning by age only removes and reports how many; importing never exceeds the capacity
+contract(D + "memory.py::ImmuneMemory.recall", "C17", self_type="ImmuneMemoryT", params={"query": "obj:ThreatSignature", "partial": "bool"}, raises=[],
+         loops={"for sig in self.signatures": {"invariant": ["True"]}},
+         ensures={"recalled-signature-is-of-the-queried-agent": "implies(result is not None, result.agent_id == query.agent_id)",
+                  "exact-recall-matches-both-hashes": "implies(result is not None and not partial, result.vocabulary_hash == query.vocabulary_hash "
+                                                      "and result.structure_hash == query.structure_hash)",
+                  "memory-keeps-its-size": "len(self.signatures) == len(old(self).signatures)"})
+contract(D + "memory.py::ImmuneMemory.prune_old", "C17", self_type="ImmuneMemoryT", params={"max_age": "timedelta"}, raises=[],
+         ensures={"removed-count-reported": "result == len(old(self).signatures) - len(self.signatures)",
+                  "only-removes": "result >= 0"})
+contract(D + "memory.py::ImmuneMemory.import_signatures", "C17", self_type="ImmuneMemoryT", params={"data": "list:dict:str,any"},
+         callbacks={"ThreatSignature.from_dict": {"returns": "obj:ThreatSignature", "raises": ("Exception",)}}, raises=["Exception"],
+         loops={"for item in data": {"invariant": ["imported >= 0", "len(self.signatures) == len(old(self).signatures) + imported",
+                                                   "len(self.signatures) <= max(len(old(self).signatures), self.capacity)"],
+                                     "property_level": ["len(self.signatures) <= max(len(old(self).signatures), self.capacity)",
+                                                        "len(self.signatures) == len(old(self).signatures) + imported"]}},
+         ensures={"imported-count-reported": "result == len(self.signatures) - len(old(self).signatures)",
+                  "import-respects-capacity": "len(self.signatures) <= max(len(old(self).signatures), self.capacity)"})
